@@ -192,7 +192,7 @@ func libLookup(name string) (libSpec, bool) {
 		return libSpec{"fresh", nil}, true
 	case "(reflect.Value).Set", "(reflect.Value).SetMapIndex", "(reflect.Value).SetInt", "(reflect.Value).SetString":
 		return libSpec{"fresh", []int{0}}, true
-	case "(reflect.Value).Elem", "(reflect.Value).Field", "(reflect.Value).FieldByName", "(reflect.Value).FieldByIndex", "(reflect.Value).Addr",
+	case "(reflect.Value).Elem", "(reflect.Value).Field", "(reflect.Value).FieldByName", "(reflect.Value).FieldByIndex", "(reflect.Value).FieldByIndexErr", "(reflect.Value).Addr",
 		"(reflect.Value).Convert", "(reflect.Value).Slice":
 		return libSpec{"arg0", nil}, true
 	case "(reflect.Value).Index", "(reflect.Value).MapIndex", "(reflect.Value).Interface", "(reflect.Value).MapKeys", "(reflect.Value).MethodByName":
